@@ -41,8 +41,11 @@ Frags == { <<Txt(<<"t">>)>>, <<Call("T1", <<Pos(<<Txt(<<"z">>)>>), Named(<<"x">>
 Strs == { <<"e">>, <<"SP", "g", "SP">>, <<>> }
 
 V == IF Universe = "Q" THEN ValuesQ ELSE Values
-Cases == { [depth |-> d, a1 |-> a1, a2 |-> a2, frag |-> fr, s1 |-> s1, s2 |-> s2] :
-             d \in 0..2, a1 \in V, a2 \in V, fr \in Frags, s1 \in Strs, s2 \in (IF Universe = "Q" THEN {<<"e">>} ELSE Strs) }
+\* values of the numeric-named argument 2=...
+V3 == { <<Txt(<<"g">>)>>, <<Call("Sp", <<>>)>>, <<Txt(<<"NL">>), Call("T1", <<Pos(<<Txt(<<"j">>)>>)>>), Txt(<<"SP">>)>> }
+Cases == { [depth |-> d, a1 |-> a1, a2 |-> a2, a3 |-> a3, frag |-> fr, s1 |-> s1, s2 |-> s2] :
+             d \in 0..2, a1 \in V, a2 \in V, a3 \in V3, fr \in (IF Universe = "Q" THEN {<<Txt(<<"t">>)>>, <<Call("T1", <<Pos(<<Txt(<<"z">>)>>), Named(<<"x">>, <<Call("Sp", <<>>)>>)>>)>>} ELSE Frags),
+             s1 \in Strs, s2 \in (IF Universe = "Q" THEN {<<"e">>} ELSE Strs) }
 
 VARIABLE case
 Init == case \in Cases
@@ -50,8 +53,8 @@ Next == UNCHANGED case
 Spec == Init /\ [][Next]_case
 
 \* the #invoke arguments as written at the call site, and the frame they are bound in
-PageArgs(c) == <<Pos(c.a1), Named(<<"x">>, c.a2)>>
-Fwd == <<Pos(<<Par(<<"1">>)>>), Named(<<"x">>, <<Par(<<"x">>)>>)>>
+PageArgs(c) == <<Pos(c.a1), Named(<<"x">>, c.a2), Named(<<"2">>, c.a3)>>
+Fwd == <<Pos(<<Par(<<"1">>)>>), Named(<<"x">>, <<Par(<<"x">>)>>), Named(<<"2">>, <<Par(<<"2">>)>>)>>
 Route == <<Named(<<"m">>, <<Txt(<<"M">>)>>), Named(<<"f">>, <<Txt(<<"F">>)>>)>>
 W2Frame(c) == Frame(Bind(PageArgs(c) \o Route, 1, 1, TopFrame, Lib, {}))
 W1Frame(c) == IF c.depth = 1 THEN Frame(Bind(PageArgs(c) \o Route, 1, 1, TopFrame, Lib, {}))
